@@ -20,7 +20,7 @@ from mtsa.report import AnalysisError, Ctx
 from . import anno_model as AM
 from . import codec_model as CM
 from . import sig_model as SM
-from .anno_model import ST, TY, Unresolved, equal_types, eval_annotation, fwd, newtype
+from .anno_model import ST, TY, Unresolved, equal_types, eval_annotation, fwd, newtype, uniontype
 from .codec_model import ANY, INT, NONE_T, STR, alias, anon_td, cls, gen
 from .render_model import fkind
 
@@ -99,6 +99,8 @@ def universe() -> List[Tuple[str, V]]:
         # what a source annotation can be besides a class or a typing construct (kept in the stub under the default strategy)
         ("NewType of another module (a source annotation)", newtype("UserId", "pkg.other", INT)),
         ("List[NewType of another module]", gen("List", newtype("UserId", "pkg.other", INT))),
+        ("`int | <class of another module>` (PEP 604, a source annotation)", uniontype(INT, Th)), ("`<own class> | None` (PEP 604)", uniontype(U_, NONE_T)),
+        ("`<own class> | <class of another module>` (PEP 604)", uniontype(U_, Th)),
         # classes that say they live in `builtins` but are not names of the builtins module (the class of a module object, of
         # NotImplemented, of a class's __dict__ proxy, of dict.keys()): get_type records them for such values
         ("class of a module object (builtins.module)", cls("builtins", "module")), ("class of NotImplemented", cls("builtins", "NotImplementedType")),
@@ -259,23 +261,20 @@ def pipeline(repo: Repo, label: str, typ: V, policy: Optional[Dict[str, str]] = 
             got = eval_annotation(txt_a, ns, nested_lookup)
         except Unresolved as e:
             return False, f"`{pos}: {txt_a}`: {e}", sites
-        if isinstance(want, R) and want.kind == "generic" and want.fields["origin"] == K("Union"):
-            # Optional[Union[a, b]] is Union[a, b, None]
-            flat: List[V] = []
-            for a in want.fields["args"].v:
-                if isinstance(a, R) and a.kind == "generic" and a.fields["origin"] == K("Union"):
-                    flat.extend(a.fields["args"].v)
-                else:
-                    flat.append(a)
-            want = gen("Union", *flat)
-        if isinstance(got, R) and got.kind == "generic" and got.fields["origin"] == K("Union"):
-            flat = []
-            for a in got.fields["args"].v:
-                if isinstance(a, R) and a.kind == "generic" and a.fields["origin"] == K("Union"):
-                    flat.extend(a.fields["args"].v)
-                else:
-                    flat.append(a)
-            got = gen("Union", *flat)
+        def as_union(t: V) -> V:
+            # `X | Y` is Union[X, Y]; Optional[Union[a, b]] is Union[a, b, None]
+            if isinstance(t, R) and t.kind == "uniontype":
+                t = gen("Union", *t.fields["__args__"].v)
+            if isinstance(t, R) and t.kind == "generic" and t.fields["origin"] == K("Union"):
+                flat: List[V] = []
+                for a in t.fields["args"].v:
+                    a = as_union(a)
+                    for x in (a.fields["args"].v if isinstance(a, R) and a.kind == "generic" and a.fields["origin"] == K("Union") else (a,)):
+                        if x not in flat:
+                            flat.append(x)
+                t = flat[0] if len(flat) == 1 else gen("Union", *flat)
+            return t
+        want, got = as_union(want), as_union(got)
         if matches(got, want, ns, classes, probs) and probs:
             return False, f"`{pos}: {txt_a}`: " + "; ".join(probs), sites
         if not matches(got, want, ns, classes, probs):
